@@ -78,7 +78,7 @@ def c12_scenarios(r, tier):
 def c13_scenarios(tier):
     """every fault kind at every message position for small (n, t): must end in an error, no account anywhere"""
     out = []
-    nts = [(2, 2), (3, 2), (3, 3)] + ([(4, 3)] if tier == "thorough" else [])
+    nts = [(2, 2), (3, 2), (3, 3)] + ([(4, 3), (4, 4), (5, 3), (5, 4), (5, 5), (6, 4)] if tier == "thorough" else [])
     k = 0
     for (n, t) in nts:
         ids = list(range(1, n + 1)) if (n, t) != (3, 3) else [2, 9, 400]
